@@ -335,7 +335,7 @@ class P(object):
             if tok[1] == "|":
                 while not self.at("|"):
                     p = self.pattern1()
-                    params.append(p[1] if p[0] == "pbind" else "_")
+                    params.append(p[1] if p[0] == "pbind" else ("_" if p[0] == "pwild" else p))     # a name, `_`, or a (tuple) pattern
                     if self.eat(":"):
                         self.type_()
                     self.eat(",")
@@ -344,6 +344,8 @@ class P(object):
         if tok[0] != "id":
             raise Unsupported("unexpected token %r" % (tok,))
         name = tok[1]
+        if name == "move" and (self.at("|") or self.at("||")):
+            return self.atom(nostruct)
         if name == "if":
             if self.at("let"):
                 self.next()
